@@ -15,7 +15,8 @@ _classes: Dict[str, Any] = {}
 def shape_key(case: dict) -> str:
     fields = [[f["name"], f["alias"], f["req"]] for f in case["fields"]]
     vals = [[v["name"], sorted(v["deps"]), v["fld"], sorted(v["disc"]), v["style"]] for v in case["vals"]]
-    return json.dumps([fields, vals, case.get("variant", ""), case.get("split", 0), case.get("wo", ""), bool(case.get("depreq"))])
+    return json.dumps([fields, vals, case.get("variant", ""), case.get("split", 0), case.get("wo", ""), bool(case.get("depreq")),
+                       bool(case.get("generic"))])
 
 
 def pn(name: str) -> str:
@@ -35,7 +36,7 @@ def class_source(case: dict) -> str:
     wo = case.get("wo", "")
     lines = ["from dataclasses import dataclass, field, InitVar",
              "from apischema import alias, validator, ValidationError, dependent_required",
-             "from apischema.objects import get_alias", "CALLS = []", "OUT = {}", "CTOR = [0]", ""]
+             "from apischema.objects import get_alias", "from typing import Generic, TypeVar", "T = TypeVar('T')", "CALLS = []", "OUT = {}", "CTOR = [0]", ""]
 
     def fields_block():
         out = []
@@ -94,6 +95,7 @@ def class_source(case: dict) -> str:
             out.append(f"            yield {msg}")
         else:
             out.append(f"            yield get_alias(self).{pn(first_dep(case, v))}, {msg}")
+            out.append(f"            yield get_alias(self).{pn(first_dep(case, v))}, {msg[:-1]}:2'")
         if v["style"] != "raise":
             out.append("        return")
             out.append("        yield")
@@ -109,7 +111,8 @@ def class_source(case: dict) -> str:
             body += validator_block(v)
         lines += body or ["    pass"]
     else:
-        lines += ["@dataclass", "class K:"] + fields_block()
+        # `generic`: the class is Generic[T] and is deserialized through its parametrised form K[int]
+        lines += ["@dataclass", "class K(Generic[T]):" if case.get("generic") else "class K:"] + fields_block()
         for v in case["vals"]:
             lines += validator_block(v)
     return "\n".join(lines) + "\n"
@@ -173,7 +176,7 @@ def run_case(case: dict, timeout_s: float = 5.0) -> dict:
             data[f["alias"]] = "x"
     out: Dict[str, Any]
     try:
-        res = deserialize(mod.K, data)
+        res = deserialize(mod.K[int] if case.get("generic") and not case.get("split") else mod.K, data)
         out = {"kind": "ok", "errs": []}
     except ValidationError as err:
         out = {"kind": "verr", "errs": bridge.enc_errors(err.errors)}
